@@ -324,6 +324,18 @@ Fixpoint forM_ {A} (l : list A) (f : A -> M unit) : M unit :=
   | x :: l' => f x ;;; forM_ l' f
   end.
 
+Fixpoint foldM {A B} (f : B -> A -> M B) (l : list A) (b : B) : M B :=
+  match l with
+  | [] => ret b
+  | x :: l' => b' <- f b x ;; foldM f l' b'
+  end.
+(* a loop with `return`: stops at the first element for which the body answers false *)
+Fixpoint forM_break {A} (l : list A) (f : A -> M bool) : M bool :=
+  match l with
+  | [] => ret true
+  | x :: l' => c <- f x ;; if c : bool then forM_break l' f else ret false
+  end.
+
 (* Z-indexed vector access, as Rust's `v[i as usize]` *)
 Definition zget {A} (l : list A) (i : Z) : option A :=
   if bool_decide (i < 0) then None else l !! Z.to_nat i.
